@@ -128,7 +128,7 @@ def delaunay_vertices(rng, lo, hi, n, spread=1.0):
     return np.array(pts)
 
 
-def mapper(aa, rng, mask, over_sampler, kind, reg, grid_sub=None, o=0, border_relocator=None):
+def mapper(aa, rng, mask, over_sampler, kind, reg, grid_sub=None, o=0, border_relocator=None, adapt_data=None):
     g = np.asarray(over_sampler.over_sampled_grid.array) if grid_sub is None else grid_sub
     src, dk = distort(rng, g)
     srcg = aa.Grid2DIrregular(values=src)
@@ -140,7 +140,7 @@ def mapper(aa, rng, mask, over_sampler, kind, reg, grid_sub=None, o=0, border_re
         nv = int(rng.integers(6, 15))
         v = delaunay_vertices(rng, lo, hi, nv, spread=float(rng.uniform(0.6, 1.15)))
         mesh = aa.Mesh2DDelaunay(values=v)
-    mg = aa.MapperGrids(mask=mask, source_plane_data_grid=srcg, source_plane_mesh_grid=mesh)
+    mg = aa.MapperGrids(mask=mask, source_plane_data_grid=srcg, source_plane_mesh_grid=mesh, adapt_data=adapt_data)
     mp = aa.Mapper(mapper_grids=mg, over_sampler=over_sampler, regularization=reg, border_relocator=border_relocator)
     return mp, {"kind": kind, "distortion": dk}
 
